@@ -483,6 +483,11 @@ impl GcCtx {
     }
 
     /// Forget registered gc nodes that have been freed.
+    /// Forget every registered node (the registry keeps nodes, and through them the context, alive).
+    pub fn v_registry_clear(&self) {
+        self.with_data(|data: &mut GcCtxData| data.registry.clear())
+    }
+
     pub fn v_registry_prune(&self) {
         self.with_data(|data: &mut GcCtxData| data.registry.retain(|n| !n.v_freed()))
     }
